@@ -49,19 +49,41 @@ def profile(tier):
                     "phase_shift": 3, "target": 4, "eom": 5, "add_dmm": 3, "detmap": 2,
                     "slm": 2, "measure": 2},
         "device": dev,
-        "register": st.one_of(gen.register_specs(n=(1, 5)), gen.register_specs(n=(1, 5)),
+        "register": st.one_of(gen.register_specs(n=(1, 5)), gen.register_specs(n=(1, 5), int_ids=True),
                               gen.register_specs(n=(2, 5), mappable=True, dim=2)),
     }
 
 
+def _has_ikw(x):
+    if isinstance(x, dict):
+        return bool(x.get("ikw")) or any(_has_ikw(v) for v in x.values())
+    if isinstance(x, list):
+        return any(_has_ikw(v) for v in x)
+    return False
+
+
 @st.composite
-def cases(draw, tier):
-    base = c08.normalise(draw(gen.programs(profile(tier))))
+def cases(draw, tier, unexportable=False):
+    prof = profile(tier)
+    if unexportable:
+        # interpolated waveforms with scipy's interp1d and its keyword arguments have no form in
+        # the published schema: the abstract encoder may refuse them, it must not export
+        # something else (the legacy codec carries them)
+        prof = dict(prof, max_ops=10, min_ops=3,
+                    weights=dict(prof["weights"], add=20, eom=0, add_dmm=1, detmap=1))
+        gen.INTERP_KWARGS = 2
+    try:
+        base = c08.normalise(draw(gen.programs(prof)))
+    finally:
+        gen.INTERP_KWARGS = False
     out = dict(base=base, codec=draw(st.sampled_from(["abstract", "abstract", "legacy"])))
-    if draw(st.booleans()):
+    if unexportable and _has_ikw(base):
+        out["unexportable"] = True
+    if draw(st.booleans()) or unexportable:
         # (the published schema has no variable form for CustomWaveform samples:
         #  that construct is not exportable and is excluded by construction)
-        pp = draw(gen_param.parametrized(base, rate=draw(st.sampled_from([15, 40])), custom_var=False))
+        pp = draw(gen_param.parametrized(base, rate=draw(st.sampled_from([15, 40, 70] if unexportable else [15, 40])),
+                                         custom_var=False))
         out["param"] = pp
         out["with_defaults"] = draw(st.booleans())
     reg = base["register"]
@@ -120,7 +142,7 @@ def check(case, ctx: Ctx):
     nondefault = any(("protocol" in op) or ("at_rest" in op) or ("cpd" in op) or ("pps" in op.get("pulse", {}))
                      or op.get("initial_target") or ("basis" in op) or ("opt_off" in op)
                      for op in base["ops"])
-    ctx.nontrivial(len(base["ops"]) >= 5 and len(kinds) >= 3 and nondefault)
+    ctx.nontrivial(bool(case.get("unexportable")) or (len(base["ops"]) >= 5 and len(kinds) >= 3 and nondefault))
     ctx.label(codec, base["device"]["type"],
               "mappable" if base["register"].get("mappable") else
               ("layout" if base["register"].get("layout") else "plain_register"))
@@ -136,6 +158,15 @@ def check(case, ctx: Ctx):
     def dec(doc):
         return Sequence.from_abstract_repr(doc) if codec == "abstract" else Sequence._deserialize(doc)
 
+    unexp = bool(case.get("unexportable")) and codec == "abstract"
+    if unexp:
+        C = "C04.unexportable"
+        try:
+            enc(seq)
+        except Exception:  # noqa: BLE001 - refusing a construct the schema cannot carry
+            ctx.label("built:refused")
+            return _check_param(case, ctx, codec, dec, None)
+        ctx.label("built:exported")
     doc = ctx.must(lambda: enc(seq), C, f"{codec}: encode")
     if codec == "abstract":
         own_schema(ctx, C, doc)
@@ -164,11 +195,16 @@ def check(case, ctx: Ctx):
                 ctx.fail(C, f"{codec}:mappable_build_outcome", f"{outcomes}")
             elif not isinstance(outcomes[0], Exception):
                 seq_equal(ctx, C, f"{codec}:mappable_built", outcomes[0], outcomes[1])
+    return _check_param(case, ctx, codec, dec, qmap)
+
+
+def _check_param(case, ctx, codec, dec, qmap):
     # ---- parametrized variant
     pp = case.get("param")
     if not pp:
         return
-    CP = "C04.parametrized"
+    unexp = bool(case.get("unexportable")) and codec == "abstract"
+    CP = "C04.unexportable" if case.get("unexportable") else "C04.parametrized"
     tit, status = ctx.must(lambda: c08.run_template(pp, ctx, CP), CP, "template construction")
     T = tit.seq
     if not T.is_parametrized():
@@ -182,6 +218,9 @@ def check(case, ctx: Ctx):
     try:
         pdoc = T.to_abstract_repr(**kw) if codec == "abstract" else T._serialize()
     except Exception as e:  # noqa: BLE001
+        if unexp:
+            ctx.label("template:refused")
+            return
         # a template whose build fails may legitimately fail to serialise with defaults
         if kw:
             try:
@@ -200,6 +239,8 @@ def check(case, ctx: Ctx):
                 exp = val if isinstance(val, list) else [val]
                 if got is None or not np.allclose(np.array(got, dtype=float), np.array(exp, dtype=float), rtol=0, atol=0):
                     ctx.fail(CP, "defaults_not_stored", f"{name}: {got} vs {exp}")
+    if unexp:
+        ctx.label("template:exported")
     Tb = ctx.must(lambda: dec(pdoc), CP, f"{codec}: decode parametrized")
     if not Tb.is_parametrized():
         ctx.fail(CP, f"{codec}:decoded_not_parametrized", "")
@@ -245,4 +286,8 @@ CLAUSES = [
     Clause("roundtrip", check, gen=lambda t: cases(t),
            budget={"quick": (16, 80), "thorough": (16, 3000)},
            doc="abstract repr + legacy codec: schema, round trip, parametrized builds"),
+    Clause("unexportable", check, gen=lambda t: cases(t, unexportable=True),
+           budget={"quick": (16, 40), "thorough": (16, 600)},
+           doc="programs with interp1d waveforms (no schema form): the abstract encoder refuses, or "
+               "what it exports decodes to the same sequence / the same builds; legacy codec round trips"),
 ]
